@@ -26,7 +26,7 @@ CLAIMED = {
              "of core.rs; tied by a differential run of the public RulesEngine and the evaluate_connection_rules door against the "
              "extracted model and an independent documentation oracle; the rules are also exercised at the endpoint's real listener (Core::listen on a loopback port): TLS connections whose client random is read off the wire, and QUIC connections, must be admitted exactly when the documented verdict for (127.0.0.1, that random) is allow; the real binary started on a rules file written as text applies the same verdicts to real connections; composite theorem denied_connection_is_never_answered over Model/FrontDoor.v",
         note="trusted: Coq kernel, Model/Rules.v, translator facts (RulesFacts.v), extraction + driver, harness; IpNet/hex parsing is library "
-             "code covered by the text-rendering diff; TLS/QUIC accept I/O not driven",
+             "code covered by the text-rendering diff; the TLS and QUIC accept paths are driven through the real listener and the binary, their library internals are environment",
         design="DESIGN.md 5 C04"),
     "C06": dict(
         text="Coq theorems over the Gallina model of http_udp_codec.rs: for every record sequence and EVERY segmentation the "
@@ -66,9 +66,9 @@ CLAIMED["C05"] = dict(
          "permitted (and, on the tunnel channel, enabled), HTTP/1.1 only without ALPN'; exact names designate their own entry under the "
          "uniqueness validate enforces; unknown/no SNI and HTTP/3 on TCP are refused; reload switches only on success (regenerated "
          "facts of core.rs); tied by a differential run of the real TlsDemux (settings + certificate files) and of "
-         "Core::reload_tls_hosts_settings histories against the extracted model and an independent oracle; one known finding; one real TLS handshake per query against the real listener: accepted or refused, and the ALPN protocol announced, as the demultiplexer's documented choice says (HTTP/3 never on TCP); composite theorem served_connection_is_the_selection over Model/FrontDoor.v (rules, demultiplexer, no HTTP/3 on TCP, in the code's order)",
+         "Core::reload_tls_hosts_settings histories against the extracted model and an independent oracle; one known finding; one real TLS handshake per query against the real listener: accepted or refused, and the ALPN protocol announced, as the demultiplexer's documented choice says (HTTP/3 never on TCP); one real QUIC handshake per query against the real QUIC listener, the channel told from the answer to a plain GET (theorem quic_serves_the_designated_entry); composite theorem served_connection_is_the_selection over Model/FrontDoor.v (rules, demultiplexer, no HTTP/3 on TCP, in the code's order)",
     note="trusted: Coq kernel, Model/TlsDemux.v, Spec/SniRouting.v, translator facts (DemuxFacts.v), extraction + driver, harness doors "
-         "verif::demux; RwLock linearisation and certificate loading are environment; QUIC double select not driven",
+         "verif::demux; RwLock linearisation and certificate loading are environment; the QUIC listener's use of the selection has its own small model (select_quic) and is driven with real QUIC handshakes; the tunnel and reverse-proxy channels answer a plain GET alike there",
     design="DESIGN.md 5 C05")
 
 CLAIMED["C13"] = dict(
@@ -102,8 +102,7 @@ CLAIMED["C14"] = dict(
          "real DuplexPipe under the paused clock on activity patterns around T (incl. exact ties) with direct 'not before T, not "
          "after 2T' oracles; the session-level timer (client_listener_timeout) is modelled in Listener.v: closed by it only with no request in service, "
          "idle sessions closed; tied by a fact and by real sessions with a tunnel transferring under a short listener timeout; real-stack scenarios: CONNECT to a listener that never answers (establishment timeout, theorem establishment_settled_by_its_own_timeout) and the real listener's timers (silent TCP connection, half a ClientHello, completed handshake without a request); idle service sessions (speedtest download / upload, ping) over HTTP/2 and HTTP/3 are closed by their session timer",
-    note="partial: tokio's timer is modelled as exact (a late timer only delays a close); establishment/handshake timeouts are not "
-         "driven here (C10 drives the 502/302 path); trusted as for C02",
+    note="partial: tokio's timer is modelled as exact (a late timer only delays a close); establishment and handshake timeouts are driven against a listener that never answers and the real listener's timers, with coarse real-time bounds; trusted as for C02",
     design="DESIGN.md 5 C14")
 
 CLAIMED["C07"] = dict(
@@ -158,7 +157,7 @@ CLAIMED["C01"] = dict(
          "decision); the registry accepts exactly base64(user:password) of configured pairs and no SNI credentials. Tied by translator "
          "facts (GateFacts.v) and by whole sessions of the real HttpDownstream + Tunnel + DirectForwarder over in-memory transports with "
          "real HTTP/1.1 bytes and a real h2 client against canary TCP/UDP listeners (egress observed, not inferred); the same sessions are repeated through the endpoint's real listener (Core::listen on a loopback port): HTTP/1.1 and HTTP/2 over real TLS, HTTP/3 over real QUIC (quiche client)",
-    note="partial: HTTP/3 is covered through the shared Stream/Tunnel code only (no QUIC transport in the harness); ICMP egress is not "
+    note="partial: HTTP/3 is driven through the real QUIC listener with a quiche client, not through the in-memory door; ICMP egress is not "
          "observable without raw sockets in the session context; trusted: Coq kernel, Model/TunnelGate.v, translator facts, extraction + "
          "driver, harness door verif::session",
     design="DESIGN.md 5 C01")
@@ -187,7 +186,7 @@ CLAIMED["C12"] = dict(
          "loopback TCP in chosen segments (incl. the 16 KiB limit), and by real rustls handshakes whose first flight is cut into pieces "
          "(random on the wire = random reported, SNI/ALPN intact, data echoed)",
     note="partial: tls-parser and rustls are library code (differentially checked, not modelled beyond the ClientHello-first layout); "
-         "the QUIC client random comes from the QUIC library after the handshake and is not driven here; trusted: Coq kernel, "
+         "the QUIC client random comes from the QUIC library after the handshake (the rules scenarios of C04 exercise it through the real QUIC listener); trusted: Coq kernel, "
          "Model/ClientRandom.v, translator facts, extraction + driver, harness door verif::tls",
     design="DESIGN.md 5 C12")
 
@@ -199,7 +198,7 @@ CLAIMED["C18"] = dict(
          "facts (select, constants, handler shapes, reverse-proxy destination = settings.server_address through a connect without policy, "
          "no handler mentions credentials) and by whole sessions on all four channels over HTTP/1.1 and HTTP/2, with and without an "
          "authenticator, against an origin canary (request head seen by the origin, relay in both directions, private policy on/off)",
-    note="partial: the reverse-proxy relay is C02's DuplexPipe; HTTP/3 reverse proxy not driven; known finding "
+    note="partial: the reverse-proxy relay is C02's DuplexPipe; the HTTP/3 reverse-proxy mask is driven through the real QUIC listener for near-miss paths only; known finding "
          "upload-of-zero-bytes-refused; trusted: Coq kernel, Model/Channels.v, translator facts, extraction + driver, door verif::session",
     design="DESIGN.md 5 C18")
 
@@ -210,8 +209,8 @@ CLAIMED["C16"] = dict(
          "counters, by exactly the uploaded bytes on inbound_traffic_bytes and the downloaded bytes on outbound_traffic_bytes of the "
          "session's protocol. Tied by translator facts (names, label, own registry, guards and where they are held, direction mapping, "
          "sent-bytes-only, listener paths) and by histories on the real stack (HTTP/1.1 and HTTP/2 sessions, CONNECT tunnels to a "
-         "transfer canary, failed connects, closes) with snapshots, the collect text and GETs on the metrics listener; datagram counters: the real UDP multiplexer with a client side that refuses every k-th reply (theorem datagram_counter_is_delivered_bytes)",
-    note="partial: the UDP gauge is driven by C07's live runs, not here; HTTP/3 sessions are not driven; label values are HTTP1/HTTP2/HTTP3 "
+         "transfer canary, failed connects, closes) with snapshots, the collect text and GETs on the metrics listener; datagram counters: the real UDP multiplexer with a client side that refuses every k-th reply (theorem datagram_counter_is_delivered_bytes); the real endpoint with its metrics listener: a session per transport (HTTP/1.1-TLS, HTTP/2-TLS, HTTP/3-QUIC) with a tunnel that stays open and a UDP multiplexer stream, every gauge and traffic counter read over TCP while live and after the clients left (back to zero); theorem quic_timer_of_a_gone_client_fires on the QUIC multiplexer's timer bookkeeping (Model/QuicTimers.v): every armed deadline is served",
+    note="partial: through the in-memory door only HTTP/1.1 and HTTP/2 sessions are driven; HTTP/3 sessions and the UDP gauge are driven through the real endpoint and read from its metrics listener; quiche's own timers are the environment of the QUIC timer model; label values are HTTP1/HTTP2/HTTP3 "
          "in the code and http1/http2/http3 in METRICS.md (known finding metrics-label-values-upper-case); trusted: Coq kernel, "
          "Model/Metrics.v, translator facts, extraction + driver, doors verif::session / verif::metrics",
     design="DESIGN.md 5 C16")
@@ -224,7 +223,7 @@ CLAIMED["C19"] = dict(
          "iff it registered before completion began. Tied by translator facts (channel construction, submit/completion/guard/wait shapes, "
          "every listener/tunnel/handler registers both halves under one lock and winds down gracefully) and by scripted interleavings on "
          "the real Shutdown with the coordinator holding the lock as main.rs does; the real endpoint with live sessions of every transport (HTTP/1.1 tunnel, HTTP/2 stream, HTTP/3 stream, idle connections): submission, goodbye seen by each client (close, GOAWAY, QUIC close), completion after the last; theorem notified_session_says_goodbye for the race between the listener and a QUIC session; the real binary as a process: SIGINT with live sessions of every transport, goodbye seen by each client, exit code 0 only after the last session (theorem process_exits_only_after_the_last_participant, fact MAIN_AWAITS_COMPLETION)",
-    note="partial: the codecs' graceful wind-down effects (GOAWAY, QUIC close) are structural facts only; known finding "
+    note="partial: the codecs' graceful wind-down effects (GOAWAY, QUIC close) are structural facts, observed from the client side at the real endpoint and the real binary; known finding "
          "completion-awaited-under-the-lock; trusted: Coq kernel, Model/ShutdownM.v, translator facts, tokio channels, extraction + "
          "driver, harness door verif::shutdown",
     design="DESIGN.md 5 C19")
@@ -239,7 +238,7 @@ CLAIMED["C20"] = dict(
          "accepted / rejected / malformed credentials, every request kind) and of the service channels with unique canaries in every "
          "secret-bearing field, searched verbatim, as base64 token and decoded; plus the scrub functions against the model; the real binary's own trace-level log on stdout is searched for the configured and rejected passwords and their Basic tokens",
     note="partial: proves the scrubbing functions and checks their use structurally; the absence of leaks over all executions is "
-         "exercised, not proved; TLS-layer log lines before the session door and QUIC are covered by facts only; trusted: Coq kernel, "
+         "exercised, not proved; TLS-layer and QUIC log lines before the session door are covered by facts and by the captures taken at the real listener and from the real binary; trusted: Coq kernel, "
          "Model/Scrub.v, the macro scan, extraction + driver, the capture logger, doors verif::session / verif::scrub",
     design="DESIGN.md 5 C20")
 
